@@ -59,6 +59,29 @@ func runCrashProperty(t *rapid.T, pc crashProgCfg) {
 			}
 		}
 	}
+	// A pool of files that only serves to push other inodes out of the 100-slot inode cache: a sweep looks at all of
+	// them (no disk writes, so no crash points are spent on it).  The pool exists before the first crash point.
+	var pool []*MNode
+	if rapid.IntRange(0, 2).Draw(t, "pool") == 0 {
+		if stepErr = x.Mkdir(LiveRef(x.M.Root), "pool"); stepErr == nil {
+			pd := x.M.Root.Children["pool"]
+			g.Skip = map[int]bool{pd.ID: true}
+			for i := 0; i < 104 && stepErr == nil; i++ {
+				name := fmt.Sprintf("p%03d", i)
+				if stepErr = x.Create(LiveRef(pd), name); stepErr == nil {
+					pool = append(pool, pd.Children[name])
+					g.Skip[pd.Children[name].ID] = true
+				}
+			}
+		}
+		if stepErr != nil {
+			failf(t, pc.Prop, detail(), "live run: %v", stepErr)
+		}
+		cr.From = cr.D.Mark()
+		cr.TL = []tlEntry{{Started: 0, Acked: cr.From, Flushed: true, State: x.M.Snapshot(), Desc: "mkfs and the pool of 104 files"}}
+		cr.lastMut = x.Mutations
+		St.Class("programs_with_a_pool_of_files_larger_than_the_inode_cache")
+	}
 	base := g.Actions(func(t *rapid.T, err error) { stepErr = err })
 	wrap := func(f func(*rapid.T)) func(*rapid.T) {
 		return func(t *rapid.T) {
@@ -85,7 +108,7 @@ func runCrashProperty(t *rapid.T, pc crashProgCfg) {
 	}
 	// an unstable write followed at once by the COMMIT that must make it durable
 	acts["unstable_then_commit"] = func(t *rapid.T) {
-		files := x.M.LiveKind(nt.NF3REG)
+		files := g.unskipped(x.M.LiveKind(nt.NF3REG))
 		if len(files) == 0 || !unstable || x.Budget < 60 {
 			t.Skip("no file, or unstable writes are off")
 		}
@@ -106,6 +129,30 @@ func runCrashProperty(t *rapid.T, pc crashProgCfg) {
 			failf(t, pc.Prop, detail(), "live run: %v", stepErr)
 		}
 	}
+	if pool != nil {
+		acts["sweep"] = func(t *rapid.T) {
+			cr.Step(func() error {
+				x.logf("GETATTR of the %d pool files", len(pool))
+				bad := ""
+				stepErr = x.call(func() {
+					for _, n := range pool {
+						if r := x.S.API().NFSPROC3_GETATTR(nt.GETATTR3args{Object: nt.Nfs_fh3{Data: n.FH}}); r.Status != nt.NFS3_OK || uint64(r.Resok.Obj_attributes.Size) != n.Size {
+							bad = fmt.Sprintf("GETATTR %s: status %d size %d (reference: %d)", n.Name, r.Status, r.Resok.Obj_attributes.Size, n.Size)
+						}
+					}
+				})
+				if stepErr == nil && bad != "" {
+					stepErr = x.errf("%s", bad)
+				}
+				return nil
+			})
+			if stepErr != nil {
+				failf(t, pc.Prop, detail(), "live run: %v", stepErr)
+			}
+			St.Class("sweeps_over_more_files_than_the_inode_cache_holds")
+		}
+		acts["sweep2"] = acts["sweep"]
+	}
 	nrestart, nnoflush := 0, 0
 	acts["restart"] = func(t *rapid.T) {
 		if nrestart+nnoflush >= 3 {
@@ -124,7 +171,7 @@ func runCrashProperty(t *rapid.T, pc crashProgCfg) {
 	}
 	// large sparse file whose removal or truncation goes to the background shrinker
 	acts["bigsparse"] = wrap(func(t *rapid.T) {
-		files := x.M.LiveKind(nt.NF3REG)
+		files := g.unskipped(x.M.LiveKind(nt.NF3REG))
 		if len(files) == 0 {
 			return
 		}
@@ -136,7 +183,7 @@ func runCrashProperty(t *rapid.T, pc crashProgCfg) {
 	})
 	// data far out in a file, so that it is large with real blocks ...
 	acts["growdata"] = wrap(func(t *rapid.T) {
-		files := x.M.LiveKind(nt.NF3REG)
+		files := g.unskipped(x.M.LiveKind(nt.NF3REG))
 		if len(files) == 0 {
 			return
 		}
@@ -151,7 +198,7 @@ func runCrashProperty(t *rapid.T, pc crashProgCfg) {
 	ndense := 0
 	acts["densebig"] = func(t *rapid.T) {
 		// every WRITE is a timeline entry of its own (each is atomic by itself)
-		files := x.M.LiveKind(nt.NF3REG)
+		files := g.unskipped(x.M.LiveKind(nt.NF3REG))
 		if len(files) == 0 || ndense >= 1 || x.Budget < 1400 {
 			return
 		}
@@ -184,7 +231,7 @@ func runCrashProperty(t *rapid.T, pc crashProgCfg) {
 	// ... and truncations of such files by more than the journal can free in one transaction
 	acts["shrinkbig"] = wrap(func(t *rapid.T) {
 		var big []*MNode
-		for _, f := range x.M.LiveKind(nt.NF3REG) {
+		for _, f := range g.unskipped(x.M.LiveKind(nt.NF3REG)) {
 			if f.Size > 515*BlockSize {
 				big = append(big, f)
 			}
